@@ -281,6 +281,33 @@ def main(chk):
     eps = [compact(a.value) for a in ast.walk(solve) if isinstance(a, ast.Assign) and U(a.targets[0]) == 'self._epsilon']
     chk.decide(eps == ['EPSILON*self.tf', 'EPSILON*self.tf*self.count'], 'loop-guard', 'epsilon', node=solve, file=SOL, func='Solver.solve',
                detail_bad='epsilon assignments %s' % eps, detail_ok=str(eps))
+    # the requested output times are kept as given: what is stored must not depend on the final time known when they are set (set_final_time may raise it later)
+    cls_ = M.find_class(t, 'Solver')
+    writers = []
+    for fn_ in [f for f in cls_.body if isinstance(f, ast.FunctionDef)]:
+        for a in ast.walk(fn_):
+            if isinstance(a, ast.Assign) and any(U(x) == 'self.output_at_times' for x in a.targets):
+                writers.append((fn_, a))
+    for fn_, a in writers:
+        # names the stored value is computed from, through the locals of the method
+        defs = {}
+        for b in ast.walk(fn_):
+            if isinstance(b, ast.Assign) and isinstance(b.targets[0], ast.Name):
+                defs.setdefault(b.targets[0].id, []).append(b.value)
+        seen, todo, reads = set(), [a.value], set()
+        while todo:
+            e = todo.pop()
+            for n in ast.walk(e):
+                if isinstance(n, ast.Attribute) and U(n).startswith('self.'):
+                    reads.add(U(n))
+                if isinstance(n, ast.Name) and n.id in defs and n.id not in seen:
+                    seen.add(n.id)
+                    todo.extend(defs[n.id])
+        bad = sorted(r for r in reads if r in ('self.tf', 'self.t', 'self.dt', 'self.count'))
+        chk.decide(not bad, 'requested-output-times-kept', fn_.name, node=a, file=SOL, func='Solver.' + fn_.name,
+                   detail_bad='the stored output times are computed from %s as it is when the times are set: times beyond it are dropped for good although set_final_time() / the run may move it later' % bad,
+                   detail_ok='stored as given (%s)' % compact(a.value)[:60])
+    chk.floor('writers of output_at_times', len(writers), 2)
     chk.assume('termination with t == tf, strict increase of t and absence of near-zero steps depend on floating-point rounding and are not decided')
 
 
